@@ -30,7 +30,7 @@ func (g *Generator) makeTypeMatch() {
 					f2.CanAssign = true
 				} else if conv {
 					f2.IsConv = true
-					f2.Type = qualifiedTypeName(f2.typ, g.flags.alias)
+					f2.Type = types.TypeString(f2.typ, g.qualifier)
 				}
 			}
 
@@ -44,24 +44,11 @@ func (g *Generator) makeTypeMatch() {
 					f1.CanAssign = true
 				} else if convback {
 					f1.IsConv = true
-					f1.Type = qualifiedTypeName(f1.typ, g.flags.alias)
+					f1.Type = types.TypeString(f1.typ, g.qualifier)
 				}
 			}
 		}
 	}
-}
-
-func qualifiedTypeName(t types.Type, alias string) string {
-	qualifier := func(pkg *types.Package) string {
-		if alias != "" {
-			return alias
-		}
-		if pkg == nil {
-			return ""
-		}
-		return pkg.Name()
-	}
-	return types.TypeString(t, qualifier)
 }
 
 func canNameMatch(f1, f2 *Field, tagMap map[string]string, ignoreCase bool) bool {
